@@ -405,13 +405,13 @@ Qed.
 
 Lemma priv_get_remove_same : forall l s, priv_get (priv_remove l s) s = 0%N.
 Proof.
-  induction l as [|[k b] r IH]; intros s; cbn; [reflexivity|].
+  unfold priv_remove. induction l as [|[k b] r IH]; intros s; cbn; [reflexivity|].
   destruct (N.eqb k s) eqn:E; cbn; [apply IH|]. rewrite E. apply IH.
 Qed.
 
 Lemma priv_remove_idem : forall l s, priv_remove (priv_remove l s) s = priv_remove l s.
 Proof.
-  induction l as [|[k b] r IH]; intros s; cbn; [reflexivity|].
+  unfold priv_remove. induction l as [|[k b] r IH]; intros s; cbn; [reflexivity|].
   destruct (N.eqb k s) eqn:E; cbn; [apply IH|]. rewrite E. cbn. now rewrite IH.
 Qed.
 
@@ -486,10 +486,10 @@ Proof. intros xs H. unfold clear_ducks. now rewrite H. Qed.
 (* in every state the server reaches, nobody is left marked for removal between two turns *)
 Lemma xstep_no_ducks : forall xs ev, xs_ducks xs = [] -> xs_ducks (xstep fx xs ev) = [].
 Proof.
-  intros xs ev H. destruct ev as [s host nm bits|s|s c]; cbn.
-  - destruct (get_session _ _); [exact H|]. exact H.
-  - rewrite H. reflexivity.
-  - destruct (get_session _ _); [apply clear_ducks_none|exact H].
+  intros xs ev H. destruct ev as [s host nm bits|s|s c]; unfold xstep.
+  - destruct (get_session _ _); exact H.
+  - cbn. rewrite H. reflexivity.
+  - destruct (get_session _ _); [|exact H]. cbv zeta. apply clear_ducks_none.
 Qed.
 
 Lemma xrun_no_ducks : forall evs xs, xs_ducks xs = [] -> xs_ducks (xrun fx evs xs) = [].
@@ -507,14 +507,14 @@ Theorem frame_step : forall xs s c ss,
   priv_remove (xs_priv xs') s = priv_remove (xs_priv xs) s /\
   unprivileged xs' s /\ xs_ducks xs' = [].
 Proof.
-  intros xs s c ss Hs U Hd. cbn. rewrite Hs.
+  intros xs s c ss Hs U Hd xs'. subst xs'. unfold xstep. rewrite Hs. cbv zeta.
   pose proof (xhandle_xframe c 0 xs s ss Hs) as [F [P UD]]. destruct (UD U) as [U' D'].
   set (xs1 := xhandle fx 0 xs s c) in *.
   assert (Hnd : xs_ducks (with_sv xs1 (push_all (xs_sv xs1))) = []) by (cbn; congruence).
   rewrite (clear_ducks_nil _ Hnd). cbn.
   assert (F2 : frame s (session_dir ss) (xs_sv xs) (push_all (xs_sv xs1))).
   { eapply frame_trans; [exact F|apply same_state_frame, push_all_same]. }
-  destruct F2 as [A [B C]]. repeat split; try assumption. congruence.
+  destruct F2 as [A [B C]]. repeat split; try assumption; try congruence.
 Qed.
 
 (* FRAME, any sequence: "no sequence of commands from an unprivileged session ..." *)
@@ -527,9 +527,10 @@ Theorem frame_own_subtree : forall cs xs s ss,
   priv_remove (xs_priv xs') s = priv_remove (xs_priv xs) s /\
   unprivileged xs' s /\ xs_ducks xs' = [].
 Proof.
-  induction cs as [|c cs IH]; intros xs s ss Hs U Hd; cbn.
-  - repeat split; auto.
-  - destruct (frame_step xs s c ss Hs U Hd) as [A [B [C [D [E F]]]]]. cbn in A, B, C, D, E, F.
+  induction cs as [|c cs IH]; intros xs s ss Hs U Hd xs'; subst xs'.
+  - cbn. repeat split; auto.
+  - destruct (frame_step xs s c ss Hs U Hd) as [A [B [C [D [E F]]]]].
+    change (xrun fx (map (XCmd s) (c :: cs)) xs) with (xrun fx (map (XCmd s) cs) (xstep fx xs (XCmd s c))).
     set (xs1 := xstep fx xs (XCmd s c)) in *.
     assert (Hs1 : exists ss1, get_session (xs_sv xs1) s = Some ss1 /\ session_dir ss1 = session_dir ss).
     { unfold idents, get_session in *. revert C Hs. generalize (sv_sessions (xs_sv xs)) (sv_sessions (xs_sv xs1)).
@@ -538,7 +539,7 @@ Proof.
       - exists y. split; [reflexivity|]. inversion Hs; subst. unfold session_dir. congruence.
       - now apply (IHl l'). }
     destruct Hs1 as [ss1 [Hs1 Hd1]].
-    destruct (IH xs1 s ss1 Hs1 E F) as [A' [B' [C' [D' [E' F']]]]]. cbn in A', B', C', D', E', F'.
+    destruct (IH xs1 s ss1 Hs1 E F) as [A' [B' [C' [D' [E' F']]]]].
     rewrite Hd1 in A'. repeat split; try assumption; congruence.
 Qed.
 
